@@ -40,9 +40,10 @@ type c08Case struct {
 	Fault  *Fault      `json:"fault,omitempty"`
 	Rules  []*HookRule `json:"rules,omitempty"`
 	// TriggerCut: fire a connection cut from inside a yield point (point, occurrence) and hold the library goroutine
-	TrigPoint string `json:"trig_point,omitempty"`
-	TrigOcc   int    `json:"trig_occ,omitempty"`
-	TrigHoldU int    `json:"trig_hold_us,omitempty"` // how long the library goroutine is held at the trigger point (default 2000)
+	TrigPoint     string `json:"trig_point,omitempty"`
+	TrigOcc       int    `json:"trig_occ,omitempty"`
+	TrigHoldU     int    `json:"trig_hold_us,omitempty"`      // how long the library goroutine is held at the trigger point (default 2000)
+	TrigCutDelayU int    `json:"trig_cut_delay_us,omitempty"` // the cut follows the trigger after this long (frames pile up behind the held goroutine meanwhile)
 	// Stale: subscriptions on a first connection, a cut, new subscriptions on the re-established connection, then the
 	// callers of some of the first generation cancel their (long dead) contexts
 	Stale *c08Stale `json:"stale,omitempty"`
@@ -197,6 +198,9 @@ func runC08(c c08Case) (*Violation, string) {
 		}
 		rules = append(rules, &HookRule{Point: c.TrigPoint, Occ: c.TrigOcc, Side: "client", HoldU: hold, Trigger: func() {
 			atomic.StoreInt32(&trigFired, 1)
+			if c.TrigCutDelayU > 0 {
+				time.Sleep(time.Duration(c.TrigCutDelayU) * time.Microsecond)
+			}
 			rig.Proxy.CutAll("rst")
 		}})
 	}
@@ -459,6 +463,9 @@ func c08NT(c c08Case) (bool, []string) {
 	if c.TrigPoint != "" {
 		cl = append(cl, "trigger_"+c.TrigPoint)
 	}
+	if c.TrigCutDelayU > 0 {
+		cl = append(cl, "queued_closes_race_teardown")
+	}
 	n := len(c.Causes)
 	if c.Fault != nil {
 		n++
@@ -506,7 +513,19 @@ func TestC08(t *testing.T) {
 		rec.Run(ft, c, nt, cl, func() *Violation {
 			v, _ := runC08(c)
 			if v != nil && v.Key != "not-a-prefix" && v.Key != "invented-values" {
-				if v2, _ := runC08(c); v2 == nil {
+				// bound-based verdicts are confirmed by a second run; cases that aim at a narrow window (a cut that
+				// follows the trigger after a delay) get several attempts to hit it again
+				tries := 1
+				if c.TrigCutDelayU > 0 {
+					tries = 10
+				}
+				confirmed := false
+				for i := 0; i < tries && !confirmed; i++ {
+					if v2, _ := runC08(c); v2 != nil {
+						confirmed = true
+					}
+				}
+				if !confirmed {
 					rec.Class("unconfirmed", 1)
 					return nil
 				}
@@ -532,6 +551,18 @@ func TestC08(t *testing.T) {
 				subs = append(subs, c08Sub{N: 2, Early: 1, Deliver: 1, KeepOpen: i%2 == 0})
 			}
 			run(t, c08Case{Subs: subs, CloseSome: true, TrigPoint: "chan.close", TrigOcc: 4, TrigHoldU: hold, Rules: []*HookRule{{Point: "chan.close", Occ: 0, Side: "client", DelayU: 300}}})
+		}
+		// the frame executor is parked on one value for 6 ms while the rest of the values and the close notifications
+		// pile up behind it; the connection is reset 3 ms into that; when the executor resumes, the queued close
+		// notifications race the teardown that is closing the same table
+		var subs []c08Sub
+		for i := 0; i < 120; i++ {
+			subs = append(subs, c08Sub{N: 2, Early: 1, Deliver: 1, KeepOpen: i%2 == 0})
+		}
+		for rep := 0; rep < scale(4, 12); rep++ {
+			for _, occ := range []int{130, 150, 170} {
+				run(t, c08Case{Subs: subs, CloseSome: true, TrigPoint: "chan.sink", TrigOcc: occ + rep, TrigHoldU: 6000, TrigCutDelayU: 3000})
+			}
 		}
 	})
 	t.Run("stale-owners", func(t *testing.T) {
